@@ -223,7 +223,10 @@ def replay_parallel(binary, common_args, npaths, outdir, procs=None, crash_tag=N
                 if prev is None or prev[0] != cur:
                     last[id(p)] = (cur, now)
                     continue
-                if now - prev[1] < stall_s:
+                # Until the first progress record appears the process is loading its
+                # input: allow a generous start-up time.
+                limit = stall_s if cur[0] != -1 else 180
+                if now - prev[1] < limit:
                     continue
                 # No progress for stall_s seconds: the code under test hangs.
                 p.kill()
